@@ -273,4 +273,64 @@ theorem gameOne_on_bytes (E : Env) {bs : BStore} (hC : CanonS E bs) {txh : Bytes
   · exact { hC with LG := canon_erase hC.LG _
                     lg := canon_put hC.lg (cd := cdG E.N) (k := ⟨r.wallet, r.cls.isBinding, false, txh, blk.height, r.index⟩) (v := ()) hgk trivial }
 
+theorem foldl_game_sim (E : Env) {txh : Bytes} {blk : BlockMetaB} (hs : StepWF txh blk) (tr : TxRec)
+    (hid : tr.tx.id = E.N.tx txh) : ∀ (l : List RelB) (bs : BStore), CanonS E bs → (∀ r ∈ l, r.WF E.N) →
+      absStore E (l.foldl (gameOneB txh blk) bs) = (l.map (RelB.nm E.N)).foldl (gameOne tr (nmBlk E.N blk)) (absStore E bs) ∧
+      CanonS E (l.foldl (gameOneB txh blk) bs) := by
+  intro l
+  induction l with
+  | nil => intro bs hC _; exact ⟨rfl, hC⟩
+  | cons r l ih =>
+    intro bs hC hq
+    obtain ⟨h1, h2⟩ := gameOne_on_bytes E hC hs (hq r List.mem_cons_self) tr hid
+    simp only [List.foldl_cons, List.map_cons]
+    rw [← h1]
+    exact ih _ h2 (fun x hx => hq x (List.mem_cons_of_mem _ hx))
+
+/-- createGameHistory: the staking / binding outputs among the relevant ones -/
+def gameOutsB (rs : List RelB) : List RelB := rs.filter (fun r => r.cls.isStaking || r.cls.isBinding)
+
+/-- AddCredits for a mined transaction, on bytes -/
+def addCreditsB (p : Params) (txh : Bytes) (cb : Bool) (blk : BlockMetaB) (sb : SB) (rs : List RelB) : M SB :=
+  if rs.isEmpty then pure sb
+  else do
+    let sb' ← rs.foldlM (creditOneB p txh cb blk) sb
+    pure ((gameOutsB rs).foldl (gameOneB txh blk) sb'.1, sb'.2)
+
+/-- **AddCredits (mined) on bytes**: the whole function — duplicate checks, address records, credits, unspent
+    entries, working balances, deposit records — commutes with the abstraction, errors included -/
+theorem addCredits_on_bytes (E : Env) (p : Params) {sb : SB} (hC : CanonS E sb.1) {txh : Bytes} {blk : BlockMetaB}
+    (hs : StepWF txh blk) {rs : List RelB} (hrs : ∀ r ∈ rs, r.WF E.N) (tr : TxRec) (hid : tr.tx.id = E.N.tx txh)
+    (hrel : tr.relOut = rs.map (RelB.nm E.N)) :
+    (addCreditsB p txh tr.tx.cb blk sb rs).map (absSB E)
+      = addCredits p (absStore E sb.1) (absBals E.N sb.2) tr (nmBlk E.N blk) ∧
+    ∀ sb', addCreditsB p txh tr.tx.cb blk sb rs = .ok sb' → CanonS E sb'.1 := by
+  unfold addCreditsB addCredits
+  have hemp : tr.relOut.isEmpty = rs.isEmpty := by rw [hrel]; cases rs <;> rfl
+  rw [hemp]
+  by_cases he : rs.isEmpty = true
+  · simp only [he, if_true]
+    exact ⟨rfl, fun sb' h => by cases h; exact hC⟩
+  · simp only [he, Bool.false_eq_true, if_false]
+    obtain ⟨f1, f2⟩ := foldlM_sim (absSB E) (fun sb => CanonS E sb.1) (creditOneB p txh tr.tx.cb blk)
+      (fun sb r => creditOne p tr (nmBlk E.N blk) sb r) (RelB.nm E.N) (RelB.WF E.N)
+      (fun b a hb ha => creditOne_on_bytes E p hb hs ha tr hid) rs sb hC hrs
+    have hg : gameOuts tr = (gameOutsB rs).map (RelB.nm E.N) := by
+      unfold gameOuts gameOutsB
+      rw [hrel, List.filter_map]; rfl
+    rw [hrel, hg]
+    have f1' : (List.map (RelB.nm E.N) rs).foldlM (creditOne p tr (nmBlk E.N blk)) (absStore E sb.1, absBals E.N sb.2)
+        = (rs.foldlM (creditOneB p txh tr.tx.cb blk) sb).map (absSB E) := f1.symm
+    rw [f1']
+    cases hf : rs.foldlM (creditOneB p txh tr.tx.cb blk) sb with
+    | error e => exact ⟨rfl, fun sb' h => by cases h⟩
+    | ok sb1 =>
+      obtain ⟨g1, g2⟩ := foldl_game_sim E hs tr hid (gameOutsB rs) sb1.1 (f2 sb1 hf)
+        (fun r hr => hrs r (List.mem_filter.mp hr).1)
+      refine ⟨?_, fun sb' h => ?_⟩
+      · show Except.ok (absSB E _) = Except.ok _
+        simp only [absSB]
+        rw [g1]
+      · cases h; exact g2
+
 end MW.LedBytes
